@@ -177,6 +177,20 @@ CHECKS = {
              "run_subproc and XSH.glob are recorders. One known finding (concatenated injection) is listed.",
         ref="DESIGN.md 4 C04",
     ),
+    "C02": dict(
+        text="The scope model of the context-aware transformer, checked on the real three-phase Execer.parse with CPython itself as the "
+             "binding oracle: programs are generated from 30 binder forms (assign, tuple/star/ann/aug assign, import forms, def, class, "
+             "for, with-as, except-as, walrus, comprehension, lambda, parameters, global, match capture, inner-scope del, branches, a "
+             "preceding command ...) at module / function / class / nested-function depth, an optional del, and one of 10 command-looking "
+             "use statements; the solver case-splits the form and the full aliasing pattern of five names (session-bound, unbound, "
+             "builtin, two fresh). Whenever CPython evaluates the use statement without NameError, xonsh must leave that statement's "
+             "tree exactly as CPython parses it; after a same-scope del of a once-bound name the line must be wrapped. A second obligation "
+             "checks that inputs rejected with SyntaxError ran nothing.",
+        note="Oracle direction only bound => untouched (xonsh judges binding lexically). Skeletons whose phase-1 parse already differs "
+             "from CPython are dropped (C01's concern; none at present). The text of an actual wrap is C03's subject. Two known findings "
+             "(walrus statement, match capture) are listed.",
+        ref="DESIGN.md 4 C02",
+    ),
 }
 
 NA = {
